@@ -160,13 +160,15 @@ BLoop ==
           /\ UNCHANGED <<el, asize, exc, atThrow>>
   /\ UNCHANGED <<h, n, k, mem, got, rel, outstanding, guard, jtop, jptr, dc, objc, objd, seen, result>>
 
-(* ~builder: for (i = 0; i != size_; ++i) objects_[i].~T(); if (size_) stack_->unwind(objects_); *)
+(* ~builder: destroys the size_ constructed elements, then gives the piece back unless release() was called
+   (repaired code); Bug = "builder_unwind_if_size" is the original: unwind only if size_ is non-zero *)
 BDtor ==
   /\ pc = "bdtor"
   /\ IF el <= bsize
      THEN /\ dc' = IF Bug = "builder_no_destroy" THEN dc ELSE [dc EXCEPT ![el] = @ + 1]
           /\ el' = el + 1 /\ pc' = "bdtor" /\ UNCHANGED <<jtop, result>>
-     ELSE /\ jtop' = IF bsize > 0 THEN jptr ELSE jtop
+     ELSE /\ jtop' = IF Bug = "builder_unwind_if_size" THEN (IF bsize > 0 THEN jptr ELSE jtop)
+                      ELSE (IF exc # 0 THEN jptr ELSE jtop)
           /\ UNCHANGED <<dc, el>>
           /\ IF exc = 0
              THEN IF h = "jarray" THEN pc' = "done" /\ result' = "ok"
